@@ -203,6 +203,14 @@ func (e *Exec) sprintf(fr *frame, format Str, args []Value, strict bool) Str {
 		}
 		a := args[ai].(Iface)
 		ai++
+		if p.verb == 'T' {
+			tn := "<nil>"
+			if a.T != nil {
+				tn = types.TypeString(a.T, func(p *types.Package) string { return p.Name() })
+			}
+			res = strConcat(res, mkStr(tn))
+			continue
+		}
 		verbFmt := p.flags
 		if p.verb == 'w' {
 			verbFmt = p.flags[:len(p.flags)-1] + "v"
